@@ -388,6 +388,33 @@ def run(ctx):
              "itextId of every item equals a registered text id (<list>-<index>, same enumeration)", scls.methods["_generate_static_instances"].loc(),
              why_fail=f"items {item_ids} registered {sorted(ids)}")
     r1.check(isinstance(inst, NodeVal) and inst.attrs.get("id") == "lst", "choice instance id", "the secondary instance id is the list name", scls.methods["_generate_static_instances"].loc())
+    # each labelled choice finds ITS OWN label under the id its item carries, per language - also after a choice that
+    # has no label at all (ids are positions in the full list, on both sides)
+    opts_m = (_mk(ctx, ocls, "m0", label={"en": "A", "fr": "Af"}, media=None), _mk(ctx, ocls, "m1", label=None, media=None),
+              _mk(ctx, ocls, "m2", label={"en": "C", "fr": "Cf"}, media={"image": {"en": "c.png"}}), _mk(ctx, ocls, "m3", label={"en": "D"}, media=None))
+    itemset_m = Obj(icls, {"name": "lm", "options": opts_m, "requires_itext": True, "used_by_search": False}, name="itemset_m")
+    so_m = survey_obj([], choices={"lm": itemset_m})
+    it.reset([])
+    info_m = it.call_function(scls.methods["_generate_static_instances"], [so_m], {"list_name": "lm", "itemset": itemset_m}, None, None)
+    inst_m = info_m.get("instance") if isinstance(info_m, dict) else None
+    item_id = {}
+    if isinstance(inst_m, NodeVal) and inst_m.children:
+        for item in inst_m.children[0].children:
+            nm_ = next((ch.text for ch in item.children if isinstance(ch, NodeVal) and ch.tag == "name"), None)
+            id_ = next((ch.text for ch in item.children if isinstance(ch, NodeVal) and ch.tag == "itextId"), None)
+            item_id[nm_] = id_
+    _ids_m, tr_m = registered(so_m, {"data": "/data"})
+    wrong = []
+    for o in opts_m:
+        lab = o.attrs.get("label")
+        if not isinstance(lab, dict):
+            continue
+        for lang_, text_ in lab.items():
+            got_ = ((tr_m.get(lang_) or {}).get(item_id.get(o.name)) or {}).get("long")
+            if got_ != text_:
+                wrong.append(f"{o.name}[{lang_}]: item id {item_id.get(o.name)} shows {got_!r}, written {text_!r}")
+    r1.check(not wrong and len(item_id) == 4, "choice texts under their own id", "every labelled choice is shown its own label in every language it was written for (ids are positions in the whole list)",
+             scls.methods["_setup_translations"].loc(), why_fail="; ".join(wrong[:3]))
     # a translated list with a choice that has no label (allowed, with a warning): its itextId must still resolve
     opts_u = (_mk(ctx, ocls, "o0", label={"en": "L0", "fr": "L0f"}, media=None), _mk(ctx, ocls, "o1", label=None, media=None))
     itemset_u = Obj(icls, {"name": "lu", "options": opts_u, "requires_itext": True, "used_by_search": False}, name="itemset_u")
